@@ -302,6 +302,7 @@ class Check:
         self.hist = {}
         self.notes = []
         self.exhaustive = None
+        self.proofs_ok = False
         self.rng = random.Random(seed)
 
     def count(self, key, n=1):
@@ -422,4 +423,5 @@ def standard_prelude(chk, with_coqchk=False):
     ob = check_property_file(chk.pid, with_coqchk=with_coqchk)
     if not ob.ok:
         chk.proof_broken(f"Properties/{chk.pid}.v", ob.error)
+    chk.proofs_ok = ob.ok and br.export_ok and br.runner_ok and not br.forbidden
     return br, ob
